@@ -32,7 +32,7 @@ DATE_FMT = {"us": "%m/%d/%Y", "ie": "%Y/%m/%d"}
 WINDOWS: List[Tuple[Optional[date], Optional[date]]] = [(None, None), (date(2021, 1, 1), None), (None, date(2020, 12, 31))]
 
 
-def asset_specs(asset: str, kinds: Sequence[str], shift: int) -> List[Dict[str, Any]]:
+def asset_specs(asset: str, kinds: Sequence[str], shift: int, zones: bool = False) -> List[Dict[str, Any]]:
     """Two covering lots (one more than a year old at the first event, one younger), then one event per kind: the first on
     2020-09-01, later ones 6 months apart (so that a window bound separates them). Disposals span both lots."""
     from rp2verif.history import dec
@@ -52,9 +52,15 @@ def asset_specs(asset: str, kinds: Sequence[str], shift: int) -> List[Dict[str, 
     add({"table": "in", "timestamp": f"2019-01-{10 + shift:02d} 10:00:00+00:00", "exchange": "X1", "holder": "H1", "transaction_type": "BUY", "spot_price": "100", "crypto_in": "1"})
     add({"table": "in", "timestamp": f"2020-06-{10 + shift:02d} 10:00:00+00:00", "exchange": "X1", "holder": "H1", "transaction_type": "BUY", "spot_price": "300",
          "crypto_in": dec(max(need, Fraction(1)) + 1)})
+    if zones:
+        # own calendar date != UTC date: 23:30 at -05:00 is the next day in UTC, 00:30 at +09:00 the previous one
+        rows[0]["timestamp"] = f"2019-01-{10 + shift:02d} 23:30:00-05:00"
+        rows[1]["timestamp"] = f"2020-06-{10 + shift:02d} 00:30:00+09:00"
     for i, k in enumerate(kinds):
         month = 9 + 6 * i
         ts = f"{2020 + (month - 1) // 12}-{(month - 1) % 12 + 1:02d}-{1 + shift:02d} 1{i % 10}:00:00+00:00"
+        if zones:
+            ts = f"{2020 + (month - 1) // 12}-{(month - 1) % 12 + 1:02d}-{1 + shift:02d} " + ("00:30:00+09:00" if i % 2 == 0 else "22:00:00-04:00")
         table, typ = k.split("/")
         if table == "IN":
             add({"table": "in", "timestamp": ts, "exchange": "X2", "holder": "H1", "transaction_type": typ, "spot_price": "250", "crypto_in": "0.25"})
@@ -69,17 +75,17 @@ def asset_specs(asset: str, kinds: Sequence[str], shift: int) -> List[Dict[str, 
     return rows
 
 
-def build_case(k1: Sequence[str], k2: Optional[Sequence[str]], window: Tuple[Optional[date], Optional[date]], country: str) -> Dict[str, Any]:
+def build_case(k1: Sequence[str], k2: Optional[Sequence[str]], window: Tuple[Optional[date], Optional[date]], country: str, zones: bool = False) -> Dict[str, Any]:
     from rp2verif import frdriver as D
 
-    assets = {"B1": asset_specs("B1", k1, 0)}
+    assets = {"B1": asset_specs("B1", k1, 0, zones)}
     if k2 is not None:
-        assets["B2"] = asset_specs("B2", k2, 3)
+        assets["B2"] = asset_specs("B2", k2, 3, zones)
     sheets = {}
     for a in list(assets):
         sheets[a], assets[a] = D.to_sheet(assets[a], a)
-    return {"label": f"rp2_{country} B1={'+'.join(k1)}" + (f" B2={'+'.join(k2)}" if k2 is not None else "") + f" -f {window[0]} -t {window[1]}",
-            "k1": list(k1), "k2": list(k2) if k2 is not None else None, "assets": assets, "sheets": sheets, "schedule": [(1970, "fifo")], "from": window[0], "to": window[1],
+    return {"label": f"rp2_{country} B1={'+'.join(k1)}" + (f" B2={'+'.join(k2)}" if k2 is not None else "") + f" -f {window[0]} -t {window[1]}" + (" [offsets]" if zones else ""),
+            "zones": zones, "k1": list(k1), "k2": list(k2) if k2 is not None else None, "assets": assets, "sheets": sheets, "schedule": [(1970, "fifo")], "from": window[0], "to": window[1],
             "country": country, "lang": "en" if country == "us" else "en_IE", "reports": [f"tax_report_{country}"], "allow_negative": True}
 
 
@@ -171,7 +177,7 @@ def judge(st: Stats, case: Dict[str, Any]) -> None:
     st.inc("evaluations")
     res = G.run(case)
     payload = {"case": {"k1": case["k1"], "k2": case["k2"], "from": str(case["from"]) if case["from"] else None, "to": str(case["to"]) if case["to"] else None,
-                        "country": case["country"]}}
+                        "country": case["country"], "zones": case.get("zones", False)}}
     tag = case["label"]
     if res["error"]:
         st.violation(dict(payload, signature=f"C14 no report: {res['stage']} / {res['error'].split(':')[0]}", what=f"{tag} :: {res['stage']}: {res['error'][:200]}"))
@@ -197,6 +203,9 @@ def cases(tier: str) -> List[Dict[str, Any]]:
                 out.append(build_case([k], None, w, country))
             out.append(build_case(list(KINDS), None, w, country))
             out.append(build_case(list(KINDS), list(reversed(KINDS)), w, country))
+            out.append(build_case(list(KINDS), list(reversed(KINDS)), w, country, zones=True))
+            for k in KINDS:
+                out.append(build_case([k], [KINDS[(KINDS.index(k) + 5) % len(KINDS)]], w, country, zones=True))
             for k1 in KINDS:
                 for k2 in KINDS:
                     out.append(build_case([k1], [k2], w, country))
@@ -250,7 +259,7 @@ def main(tier: str, budget_s: Optional[float] = None) -> int:
         "rule": (
             "US and IE plugins x window (none / from 2021-01-01 / to 2020-12-31) x { every single kind; every ordered pair (k1 on asset B1, k2 on asset B2) of "
             "the 14 taxable kinds; pairs of kinds on one asset six months apart (quick: a third of them per window); all 14 kinds on one and on both assets }; "
-            "each disposal spans a lot older and a lot younger than one year. One evaluation = one real generator run read back; non-trivial = two assets"
+            "each disposal spans a lot older and a lot younger than one year; a variant writes timestamps at 23:30-05:00 / 00:30+09:00 / 22:00-04:00 (own date != UTC date). One evaluation = one real generator run read back; non-trivial = two assets"
         ),
         "kinds": list(KINDS),
         "exhaustive": bool(complete),
@@ -273,7 +282,7 @@ def replay(path: str) -> int:
     with open(path, encoding="utf-8") as f:
         p = json.load(f)
     c = p["case"]
-    case = build_case(c["k1"], c["k2"], (date.fromisoformat(c["from"]) if c["from"] else None, date.fromisoformat(c["to"]) if c["to"] else None), c["country"])
+    case = build_case(c["k1"], c["k2"], (date.fromisoformat(c["from"]) if c["from"] else None, date.fromisoformat(c["to"]) if c["to"] else None), c["country"], c.get("zones", False))
     ctx = mp.get_context("fork")
     with ctx.Pool(1, initializer=init) as pool:
         st = pool.apply(worker, ([case],))
